@@ -264,37 +264,94 @@ func (en *env) runRanges(r *evid.Run) {
 	}
 }
 
+type kvReq struct {
+	kind     string
+	mutating bool
+	f        func() error
+}
+
+// kvRequests: one request of every KV method naming table tb.
+func (en *env) kvRequests(ctx context.Context, tb []byte) []kvReq {
+	return []kvReq{
+		{"Range", false, func() error { _, e := en.kv.Range(ctx, &regattapb.RangeRequest{Table: tb, Key: []byte("k")}); return e }},
+		{"IterateRange", false, func() error {
+			c2, cancel := context.WithTimeout(ctx, 10*time.Second)
+			defer cancel()
+			return en.kv.IterateRange(&regattapb.RangeRequest{Table: tb, Key: []byte("k")}, &recRange{ctx: c2})
+		}},
+		{"Put", true, func() error {
+			_, e := en.kv.Put(ctx, &regattapb.PutRequest{Table: tb, Key: []byte("intruder"), Value: []byte("x")})
+			return e
+		}},
+		{"DeleteRange", true, func() error {
+			_, e := en.kv.DeleteRange(ctx, &regattapb.DeleteRangeRequest{Table: tb, Key: []byte{0}, RangeEnd: []byte{0}})
+			return e
+		}},
+		{"Txn", true, func() error {
+			_, e := en.kv.Txn(ctx, &regattapb.TxnRequest{Table: tb, Success: []*regattapb.RequestOp{{Request: &regattapb.RequestOp_RequestPut{RequestPut: &regattapb.RequestOp_Put{Key: []byte("intruder"), Value: []byte("x")}}}}})
+			return e
+		}},
+	}
+}
+
+// runDeletedTable: a table that has just been used through every KV method and is then deleted
+// through the Tables service is an unknown table from the moment the delete is answered: every KV
+// method answers NotFound at once and nothing changes; re-created under the same name it is empty.
+func (en *env) runDeletedTable(r *evid.Run) {
+	ctx := context.Background()
+	w := want{codes: []codes.Code{codes.NotFound}, reason: "unknown table (deleted a moment ago)"}
+	for round := 0; round < 2; round++ {
+		name := "gone"
+		tb := []byte(name)
+		if _, err := en.tabs.Create(ctx, &regattapb.CreateTableRequest{Name: name}); err != nil {
+			r.Inconcl.Add(1)
+			return
+		}
+		if err := en.e.WaitTable(name, 20*time.Second); err != nil {
+			r.Inconcl.Add(1)
+			return
+		}
+		// warm: every method is served once
+		for _, rq := range en.kvRequests(ctx, tb) {
+			_, _ = call(rq.f)
+		}
+		_, _ = en.kv.Put(ctx, &regattapb.PutRequest{Table: tb, Key: []byte("k"), Value: []byte("old")})
+		if _, err := en.tabs.Delete(ctx, &regattapb.DeleteTableRequest{Name: name}); err != nil {
+			r.Violate("deleted-table/delete-refused", err.Error(), map[string]any{"kind": "deleted-table"})
+			return
+		}
+		en.base = en.digest()
+		for _, rq := range en.kvRequests(ctx, tb) {
+			desc := fmt.Sprintf("%s{table=%q, deleted a moment ago after being used}", rq.kind, name)
+			evid.Journal("C16", desc)
+			err, p := call(rq.f)
+			r.Outcome(desc+status.Code(err).String(), true)
+			r.AddExtra("deleted_table_requests", 1)
+			for _, vv := range en.after(rq.kind, desc, w, err, p, false) {
+				r.Violate("deleted-table/"+vv.sig, vv.detail, map[string]any{"kind": "deleted-table", "request": desc})
+			}
+		}
+		if round == 1 {
+			// re-created under the same name: a read names the NEW table
+			if _, err := en.tabs.Create(ctx, &regattapb.CreateTableRequest{Name: name}); err == nil && en.e.WaitTable(name, 20*time.Second) == nil {
+				res, err := en.kv.Range(ctx, &regattapb.RangeRequest{Table: tb, Key: []byte("k")})
+				if err == nil && len(res.Kvs) != 0 {
+					r.Violate("deleted-table/re-created-table-answers-with-the-old-content", fmt.Sprintf("Range{table=%q key=k} after delete + create: %d pairs", name, len(res.Kvs)), map[string]any{"kind": "deleted-table"})
+				}
+				_, _ = en.tabs.Delete(ctx, &regattapb.DeleteTableRequest{Name: name})
+			}
+		}
+	}
+	en.base = en.digest()
+}
+
 // runTableSpellings: names that are NOT the existing table "t" but could be taken for it by a lookup
 // that normalises paths or trims: every KV method must answer NotFound and change nothing.
 func (en *env) runTableSpellings(r *evid.Run) {
 	ctx := context.Background()
 	w := want{codes: []codes.Code{codes.NotFound}, reason: "unknown table"}
 	for _, name := range []string{"t/", "t//", "t/.", "./t", "/t", "x/../t", "t ", " t", "T", "t\x00", "tables/t"} {
-		tb := []byte(name)
-		reqs := []struct {
-			kind     string
-			mutating bool
-			f        func() error
-		}{
-			{"Range", false, func() error { _, e := en.kv.Range(ctx, &regattapb.RangeRequest{Table: tb, Key: []byte("k")}); return e }},
-			{"IterateRange", false, func() error {
-				c2, cancel := context.WithTimeout(ctx, 10*time.Second)
-				defer cancel()
-				return en.kv.IterateRange(&regattapb.RangeRequest{Table: tb, Key: []byte("k")}, &recRange{ctx: c2})
-			}},
-			{"Put", true, func() error {
-				_, e := en.kv.Put(ctx, &regattapb.PutRequest{Table: tb, Key: []byte("intruder"), Value: []byte("x")})
-				return e
-			}},
-			{"DeleteRange", true, func() error {
-				_, e := en.kv.DeleteRange(ctx, &regattapb.DeleteRangeRequest{Table: tb, Key: []byte{0}, RangeEnd: []byte{0}})
-				return e
-			}},
-			{"Txn", true, func() error {
-				_, e := en.kv.Txn(ctx, &regattapb.TxnRequest{Table: tb, Success: []*regattapb.RequestOp{{Request: &regattapb.RequestOp_RequestPut{RequestPut: &regattapb.RequestOp_Put{Key: []byte("intruder"), Value: []byte("x")}}}}})
-				return e
-			}},
-		}
+		reqs := en.kvRequests(ctx, []byte(name))
 		for _, rq := range reqs {
 			desc := fmt.Sprintf("%s{table=%q (not the existing table \"t\")}", rq.kind, name)
 			evid.Journal("C16", desc)
@@ -635,7 +692,7 @@ func (en *env) runTables(r *evid.Run) {
 
 func Run(r *evid.Run) {
 	r.Check = "c16"
-	r.Rule("per-field domain products through the registered codec into the real KVServer / TablesServer / ReadonlyTablesServer over a real engine: Range and IterateRange = table{empty,existing,unknown} x key{empty,k,1024B,1025B} x range_end{absent,present-empty,wildcard,z,1025B} x limit{-1,0,1} x keys_only x count_only x linearizable x revision filter{none, each of 4}; Put = table x key x value{empty,v,2MiB,2MiB+1} x prev_kv; DeleteRange = table x key x range_end x prev_kv x count; Txn = table x <=1 of 12 predicates x <=2 of 24 nested operations (reads/puts/deletes over the same domains, empty oneof, out-of-enum comparison) in both branches, and for lists that must be refused also in the success branch only and in the failure branch only; every KV method with 11 table names that are not the existing table but could be taken for it (trailing or leading slash, dot segments, case, blanks, NUL): NotFound and nothing changed; Tables create/delete/list with names {empty,new,existing,a/b,sys/idseq,t/lease,../x,*} on leader and follower wiring. Classifier from the documented constraints; after every refused or read-only request the table list and the full content of every table must be unchanged; a handler panic or a dead process is a violation. Non-trivial: every request; distinct = distinct (request, status)")
+	r.Rule("per-field domain products through the registered codec into the real KVServer / TablesServer / ReadonlyTablesServer over a real engine: Range and IterateRange = table{empty,existing,unknown} x key{empty,k,1024B,1025B} x range_end{absent,present-empty,wildcard,z,1025B} x limit{-1,0,1} x keys_only x count_only x linearizable x revision filter{none, each of 4}; Put = table x key x value{empty,v,2MiB,2MiB+1} x prev_kv; DeleteRange = table x key x range_end x prev_kv x count; Txn = table x <=1 of 12 predicates x <=2 of 24 nested operations (reads/puts/deletes over the same domains, empty oneof, out-of-enum comparison) in both branches, and for lists that must be refused also in the success branch only and in the failure branch only; every KV method with 11 table names that are not the existing table but could be taken for it (trailing or leading slash, dot segments, case, blanks, NUL): NotFound and nothing changed; every KV method on a table that was used through every method and then deleted through the Tables service: NotFound at once, nothing changed, re-created it is empty; Tables create/delete/list with names {empty,new,existing,a/b,sys/idseq,t/lease,../x,*} on leader and follower wiring. Classifier from the documented constraints; after every refused or read-only request the table list and the full content of every table must be unchanged; a handler panic or a dead process is a violation. Non-trivial: every request; distinct = distinct (request, status)")
 	eng, err := engx.Start(engx.Opts{})
 	if err != nil {
 		fmt.Println("INFRA: engine start failed:", err)
@@ -659,6 +716,7 @@ func Run(r *evid.Run) {
 	}
 	en.reseed()
 	en.runTableSpellings(r)
+	en.runDeletedTable(r)
 	en.runRanges(r)
 	en.runPuts(r)
 	en.cleanup()
